@@ -97,6 +97,15 @@ func GenCfg(rng *rand.Rand, o GenOpts) Cfg {
 			}
 		}
 
+		// every fourth controller re-declares its inputs with other kinds on an early wake (destroy-ready -> weak/strong, weak <-> strong)
+		if i%4 == 1 || (len(c.Inputs) > 0 && c.Inputs[0].Kind == controller.InputDestroyReady && i%2 == 0) {
+			c.LateKindFlip = true
+
+			if c.LateAt < 0 {
+				c.LateAt = 1 + (i+len(c.Inputs))%2
+			}
+		}
+
 		c.BusyBefore = []int{rng.IntN(4), rng.IntN(8), 0}
 		c.BusyAfter = []int{rng.IntN(3), 0, rng.IntN(10)}
 		cfg.Ctrls = append(cfg.Ctrls, c)
